@@ -69,6 +69,20 @@ CHECKS = {
         note=TB + " Partial: nativeAccess/interpAccess model only the range test of dyn_array.c / eval.c; abort() and exit(1) behaviour of the host is observed, not modelled.",
         technique="Lean 4 proof (case analysis on exact int64 index arithmetic, handler-level theorem) + exhaustive boundary enumeration + differential correspondence",
         design="6/C08"),
+    "C09": dict(
+        category="partial",
+        text=("Lean 4 theorems for EVERY byte string over the lexer model (tied to tokenize() token for token on valid programs and on token- and byte-level "
+              "mutants): each scanning step strictly shortens the input, so the scanner needs at most one step per byte and `lex` is a total function whose only "
+              "failures are the three lexical errors (lexStep_progress, lexGo_fuel, lex_total); at most one token per byte plus EOF (lex_token_bound); the token list "
+              "ends with EOF (lex_ends_eof); reads are in bounds by construction. For the parser model: nesting beyond the limit regenerated from parser.c is "
+              "answered with the depth error for any tokens (expr_depth_guard, block_depth_guard), and the model is a total function. Partial: the C parser's error "
+              "RECOVERY (where hangs come from), the type checker and import processing are not modelled; for them the check is a search, not a proof: valid "
+              "programs, token- and byte-level mutants, nesting through every recursive construct from 10 to 200000 levels, exact token counts around powers of two and "
+              "malformed definitions go through nano_virt --emit-nvm built with ASan+UBSan (and the plain build with the default stack) under a time limit: exit 0 or 1, "
+              "no sanitizer report, no signal, a rejection prints a diagnostic and leaves no file."),
+        note=TB + " Level partial as designed: totality is proved for the lexer and the nesting guard only. Five front-end defects found by the search were repaired in /repo (parser hang, two memory errors, two stack overflows); the quadratic diagnostic cascade F-C09-3 is a known finding.",
+        technique="Lean 4 proof (well-founded progress argument for the scanner, all inputs) + translator + token-for-token correspondence + sanitizer/mutation search for the unmodelled stages",
+        design="6/C09"),
     "C10": dict(
         text=("Lean 4 theorems, unbounded: for the string pool, the function table and the import table (with parameter-type tables) the "
               "loader's section parser recovers exactly what the serialiser wrote, field by field, wherever the section sits in a file "
